@@ -42,6 +42,10 @@ def check(run):
     for arity in (1, 2, 3):
         for before, during, after in ((1, 0, 2), (2, 1, 1), (1, 2, 2), (3, 0, 1)):
             scs.append(dict(arity=arity, before=before, during=during, after=after, err=True))
+    # results that are zero values, nil interfaces included (Once1[error], Once2[int, any], Once3[int, error, any])
+    for arity in (1, 2, 3):
+        for before, during, after in ((1, 0, 1), (2, 1, 1), (1, 2, 0)):
+            scs.append(dict(arity=arity, before=before, during=during, after=after, zero=True))
     # callers that pass a nil function while / after somebody else's function runs: it must never be called, and they wait and share
     for arity in (1, 2, 3):
         for before, during, after in ((1, 1, 1), (1, 2, 0), (2, 0, 2), (1, 0, 1)):
